@@ -1,5 +1,7 @@
 import TxV.Util.AuditCmd
 import TxV.Props.C05
 import TxV.Props.C05b
+import TxV.Props.C05c
 #txv_audit TxV.Props.C05
 #txv_audit TxV.Props.C05b
+#txv_audit TxV.Props.C05c
